@@ -773,6 +773,8 @@ DEFAULT_SCALE = {'NM': (200, 200), 'Powell': (1000, 1000), 'DE': (10, 1000), 'DE
 class LimitModel(object):
     """C05: stopping discipline -- limits, termination and exit requests are honoured"""
     P = 'C05'
+    INTERNAL_ERRORS = ('TypeError', 'AttributeError', 'IndexError', 'KeyError', 'NameError', 'UnboundLocalError', 'AssertionError',
+                       'RecursionError')
     def __init__(self):
         self.maxiter = None      # explicit absolute limits as the model understands them (None = default)
         self.maxfun = None
@@ -805,8 +807,11 @@ class LimitModel(object):
             if e is not None and s._maxfun != (e + ca if new else e):
                 h.violate(self.P, 'new_limit_miscounted', detail='SetEvaluationLimits(evaluations=%r,new=%r) after %d real cost '
                           'calls stored maxfun=%r' % (e, new, ca, s._maxfun), **self.tags(h))
-        if op['op'] == 'solve':
-            pass
+        if op['op'] in ('step', 'solve') and res.get('exc') in self.INTERNAL_ERRORS:
+            # "hence Solve always returns": a legal sequence of Set*/Step/Solve calls that dies of an internal error (not an
+            # injected fault, not an interrupt, not the rejection of an invalid setting) did not return
+            h.violate(self.P, 'run_died_of_internal_error', detail='%s after %d completed iterations raised %s: %s'
+                      % (op['op'], self._iters(h), res['exc'], (res.get('exc_msg') or '')[:200]), exc=res['exc'], **self.tags(h))
         if op['op'] in ('step', 'solve') and h.started and 'exc' not in res:
             self.check_final(h, op, res)
     def before_op(self, h, op):
